@@ -635,6 +635,11 @@ fn spawn_async_ao_list_in_task'''),
         ('plain-operator-strips-tabs', 'brush-parser/src/parser/peg.rs', "                    remove_tabs: false,", "                    remove_tabs: true,"),
         ('backslash-in-the-delimiter-does-not-count-as-quoting', 'brush-parser/src/parser/peg.rs', [("specific_operator(\"<<\") here_tag:here_tag() doc:[_] closing_tag:here_tag() {\n                let requires_expansion = !here_tag.to_str().contains(['\\'', '\"', '\\\\']);", "specific_operator(\"<<\") here_tag:here_tag() doc:[_] closing_tag:here_tag() {\n                let requires_expansion = !here_tag.to_str().contains(['\\'', '\"', '\"']);")]),
     ],
+    'U60': [
+        ('only-a-single-bang-negates', 'brush-parser/src/parser/peg.rs', "let invert = bang.len() % 2 == 1;", "let invert = bang.len() == 1;"),
+        ('any-bang-negates', 'brush-parser/src/parser/peg.rs', "let invert = bang.len() % 2 == 1;", "let invert = !bang.is_empty();"),
+        ('bare-time-refused', 'brush-parser/src/parser/peg.rs', "if timed.is_none() && bang.is_empty() && seq.is_empty() {", "if bang.is_empty() && seq.is_empty() {"),
+    ],
     'U27e': [
         ('token-start-read-after-it-was-taken', 'brush-parser/src/tokenizer.rs', "            start: Arc::new(std::mem::take(&mut self.start_position)),\n            end,", "            start: Arc::new({ let _ = std::mem::take(&mut self.start_position); std::mem::take(&mut self.start_position) }),\n            end,"),
         ('next-token-does-not-restart-at-the-cut', 'brush-parser/src/tokenizer.rs', "        end_position.clone_into(&mut self.start_position);\n", ""),
